@@ -341,6 +341,11 @@ func (w *worldCheck) check(si int, plans []*FaultPlan, nilLoader bool) {
 		c.Probe("recovery-after-fault")
 		w.reach(res3, si, 2, "recovery after "+what)
 	}
+	// "The same schema may be resolved multiple times": the Resolved obtained first must be
+	// unaffected by all the later Resolve calls on the same tree (other loaders, failures, fresh documents).
+	if len(plans) > 0 {
+		w.reach(res, si, 3, "the first Resolved, after later Resolve calls on the same tree")
+	}
 }
 
 func (w *worldCheck) loaderHistory(log *LoaderLog, si int, ctxt string) {
@@ -431,7 +436,22 @@ func (w *worldCheck) mirror() {
 	if !ok {
 		return
 	}
-	for pass, host := range []string{hostA, hostB, hostA} {
+	var first *jsonschema.Resolved
+	for pass, host := range []string{hostA, hostB, hostA, "first-again"} {
+		if host == "first-again" {
+			// the Resolved of pass 0 must still work after the same tree has been resolved again
+			for _, p := range w.probes {
+				inst := p.Instance(p.Target.Marker)
+				var verr error
+				r := Op(func() { verr = first.Validate(inst) })
+				c.CheckOp("Validate(first Resolved after later Resolves)", r)
+				if r.Panicked || verr != nil {
+					c.Fail("C03/reach", "earlier-resolved-damaged", "the Resolved obtained first no longer reaches %s after the same schema tree was resolved again under another BaseURI: %v %v", p, r, verr)
+					return
+				}
+			}
+			break
+		}
 		base := host + strings.TrimPrefix(u.BaseURI, hostA)
 		var res *jsonschema.Resolved
 		var err error
@@ -440,6 +460,9 @@ func (w *worldCheck) mirror() {
 		if r.Panicked || err != nil {
 			c.Fail("C03/reach", "mirror-resolve", "pass %d: Resolve of a relocatable universe under BaseURI %s with a caching loader failed: %v %v", pass, base, r, err)
 			return
+		}
+		if pass == 0 {
+			first = res
 		}
 		for _, p := range w.probes {
 			want := p.Target.Marker
